@@ -29,12 +29,17 @@
        select.select([sock, sockpairR], wlist, [], timeout)       LSelect wl      (parked iff pipe = 0 and wl = false;
                                                                                    the token Timeout releases it)
        self._sockpairR.recv(10000); force a write                 LDrain          (pipe recv)
+       loop_write(): if not self._connect_queued: return          LGate           (load)
        loop_write -> _packet_write: popleft / send until empty    LPop, LSend p
      and, optionally, the body of reconnect() executed by the loop thread before it enters _loop():
        self._sock_close()                                         RClose
        while True: pkt = self._out_packet.popleft() ... mark      RDrain  (one popleft per step, until IndexError)
+       self._connect_queued = False                               RFlag
        self._sock = self._create_socket()                         RSock
-       _send_connect -> _packet_queue: appendleft(CONNECT), pipe  RConnect, RWake
+       _send_connect -> _packet_queue: appendleft(CONNECT),       RConnect
+                        self._connect_queued = True, pipe send    RFlagT, RWake
+     loop_write() begins with `if not self._connect_queued: return` (LGate): nothing is written on a new socket
+     before its CONNECT is queued (/repo 9f497e7)
      (code as of /repo commits c6905fd and 0ed8c5c; the earlier `for pkt in deque` / `clear()` / `append(CONNECT)`
       version was refuted: findings F-C07a, b, d, now fixed)
 *)
@@ -62,8 +67,8 @@ Record pub : Type := mkPub {
 
 (* ------------------------------------------------------------------ loop thread *)
 Inductive lpc : Type :=
-| LWant | LSelect (wl : bool) | LDrain | LPop | LSend (p : pkt)
-| RClose | RDrain | RSock | RConnect | RWake.
+| LWant | LSelect (wl : bool) | LDrain | LGate | LPop | LSend (p : pkt)
+| RClose | RDrain | RFlag | RSock | RConnect | RFlagT | RWake.
 
 Record conf : Type := mkConf {
   last_mid : Z;
@@ -77,7 +82,8 @@ Record conf : Type := mkConf {
   pubs : list pub;
   timeouts : nat;                  (* ghost: select() timeouts consumed *)
   alloc_log : list (nat * nat * Z);(* ghost: (publisher, message index, mid) in the order _mid_generate returned them *)
-  marked : list pkt                (* ghost: packets reconnect() marked as lost (rc = MQTT_ERR_CONN_LOST, published) *)
+  marked : list pkt;               (* ghost: packets reconnect() marked as lost (rc = MQTT_ERR_CONN_LOST, published) *)
+  cq : bool                        (* _connect_queued: False between the creation of a socket and the queuing of its CONNECT *)
 }.
 
 Fixpoint upd {A : Type} (i : nat) (x : A) (l : list A) : list A :=
@@ -89,7 +95,7 @@ Fixpoint upd {A : Type} (i : nat) (x : A) (l : list A) : list A :=
 
 Definition set_pub (c : conf) (i : nat) (p : pub) : conf :=
   mkConf (last_mid c) (mid_lock c) (out_packet c) (pipe c) (sock c) (nconn c) (wire c) (loop c)
-         (upd i p (pubs c)) (timeouts c) (alloc_log c) (marked c).
+         (upd i p (pubs c)) (timeouts c) (alloc_log c) (marked c) (cq c).
 
 Definition with_pc (p : pub) (k : ppc) : pub :=
   mkPub k (tmp p) (ret p) (idx p) (todo p) (results p) (sentp p).
@@ -107,26 +113,26 @@ Definition pstep (i : nat) (p : pub) (c : conf) : option conf :=
       | Some _ => None
       | None =>
           Some (mkConf (last_mid c) (Some i) (out_packet c) (pipe c) (sock c) (nconn c) (wire c) (loop c)
-                       (upd i (with_pc p PRd1) (pubs c)) (timeouts c) (alloc_log c) (marked c))
+                       (upd i (with_pc p PRd1) (pubs c)) (timeouts c) (alloc_log c) (marked c) (cq c))
       end
   | PRd1 =>
       Some (set_pub c i (mkPub PWr1 (last_mid c) (ret p) (idx p) (todo p) (results p) (sentp p)))
   | PWr1 =>
       Some (mkConf (tmp p + 1) (mid_lock c) (out_packet c) (pipe c) (sock c) (nconn c) (wire c) (loop c)
-                   (upd i (with_pc p PRd2) (pubs c)) (timeouts c) (alloc_log c) (marked c))
+                   (upd i (with_pc p PRd2) (pubs c)) (timeouts c) (alloc_log c) (marked c) (cq c))
   | PRd2 =>
       Some (set_pub c i (mkPub (if last_mid c =? 65536 then PWrap else PRd3)
                                (last_mid c) (ret p) (idx p) (todo p) (results p) (sentp p)))
   | PWrap =>
       Some (mkConf 1 (mid_lock c) (out_packet c) (pipe c) (sock c) (nconn c) (wire c) (loop c)
-                   (upd i (with_pc p PRd3) (pubs c)) (timeouts c) (alloc_log c) (marked c))
+                   (upd i (with_pc p PRd3) (pubs c)) (timeouts c) (alloc_log c) (marked c) (cq c))
   | PRd3 =>
       Some (mkConf (last_mid c) (mid_lock c) (out_packet c) (pipe c) (sock c) (nconn c) (wire c) (loop c)
                    (upd i (mkPub PRel (tmp p) (last_mid c) (idx p) (todo p) (results p) (sentp p)) (pubs c))
-                   (timeouts c) (alloc_log c ++ [(i, idx p, last_mid c)]) (marked c))
+                   (timeouts c) (alloc_log c ++ [(i, idx p, last_mid c)]) (marked c) (cq c))
   | PRel =>
       Some (mkConf (last_mid c) None (out_packet c) (pipe c) (sock c) (nconn c) (wire c) (loop c)
-                   (upd i (with_pc p PSock) (pubs c)) (timeouts c) (alloc_log c) (marked c))
+                   (upd i (with_pc p PSock) (pubs c)) (timeouts c) (alloc_log c) (marked c) (cq c))
   | PSock =>
       match sock c with
       | None => Some (set_pub c i (next_msg p false))
@@ -137,10 +143,10 @@ Definition pstep (i : nat) (p : pub) (c : conf) : option conf :=
       Some (mkConf (last_mid c) (mid_lock c) (out_packet c ++ [k]) (pipe c) (sock c) (nconn c) (wire c)
                    (loop c)
                    (upd i (mkPub PPipe (tmp p) (ret p) (idx p) (todo p) (results p) (sentp p ++ [k])) (pubs c))
-                   (timeouts c) (alloc_log c) (marked c))
+                   (timeouts c) (alloc_log c) (marked c) (cq c))
   | PPipe =>
       Some (mkConf (last_mid c) (mid_lock c) (out_packet c) (S (pipe c)) (sock c) (nconn c) (wire c) (loop c)
-                   (upd i (with_pc p PRet) (pubs c)) (timeouts c) (alloc_log c) (marked c))
+                   (upd i (with_pc p PRet) (pubs c)) (timeouts c) (alloc_log c) (marked c) (cq c))
   | PRet => Some (set_pub c i (next_msg p true))
   | PDone => None
   end.
@@ -150,7 +156,7 @@ Definition recv_max : nat := Z.to_nat 10000.
 
 Definition set_loop (c : conf) (l : lpc) : conf :=
   mkConf (last_mid c) (mid_lock c) (out_packet c) (pipe c) (sock c) (nconn c) (wire c) l
-         (pubs c) (timeouts c) (alloc_log c) (marked c).
+         (pubs c) (timeouts c) (alloc_log c) (marked c) (cq c).
 
 Definition is_nil {A : Type} (l : list A) : bool := match l with [] => true | _ => false end.
 
@@ -159,50 +165,58 @@ Definition lstep (c : conf) : option conf :=
   | LWant => Some (set_loop c (LSelect (negb (is_nil (out_packet c)))))
   | LSelect wl =>
       if (0 <? pipe c)%nat then Some (set_loop c LDrain)
-      else if wl then Some (set_loop c LPop)
+      else if wl then Some (set_loop c LGate)
       else None                                              (* parked in select() *)
   | LDrain =>
       Some (mkConf (last_mid c) (mid_lock c) (out_packet c) (pipe c - Nat.min (pipe c) recv_max)%nat (sock c)
-                   (nconn c) (wire c) LPop (pubs c) (timeouts c) (alloc_log c) (marked c))
+                   (nconn c) (wire c) LGate (pubs c) (timeouts c) (alloc_log c) (marked c) (cq c))
+  | LGate =>                                                 (* loop_write(): writes nothing until CONNECT is queued *)
+      Some (set_loop c (if cq c then LPop else LWant))
   | LPop =>
       match out_packet c with
       | [] => Some (set_loop c LWant)                        (* IndexError: _packet_write returns *)
       | p :: q =>
           Some (mkConf (last_mid c) (mid_lock c) q (pipe c) (sock c) (nconn c) (wire c) (LSend p)
-                       (pubs c) (timeouts c) (alloc_log c) (marked c))
+                       (pubs c) (timeouts c) (alloc_log c) (marked c) (cq c))
       end
   | LSend p =>
       match sock c with
       | Some k =>
           Some (mkConf (last_mid c) (mid_lock c) (out_packet c) (pipe c) (sock c) (nconn c)
-                       (wire c ++ [(k, p)]) LPop (pubs c) (timeouts c) (alloc_log c) (marked c))
+                       (wire c ++ [(k, p)]) LPop (pubs c) (timeouts c) (alloc_log c) (marked c) (cq c))
       | None =>                                              (* no socket: appendleft, give up *)
           Some (mkConf (last_mid c) (mid_lock c) (p :: out_packet c) (pipe c) (sock c) (nconn c)
-                       (wire c) LWant (pubs c) (timeouts c) (alloc_log c) (marked c))
+                       (wire c) LWant (pubs c) (timeouts c) (alloc_log c) (marked c) (cq c))
       end
   | RClose =>
       Some (mkConf (last_mid c) (mid_lock c) (out_packet c) (pipe c) None (nconn c) (wire c) RDrain
-                   (pubs c) (timeouts c) (alloc_log c) (marked c))
+                   (pubs c) (timeouts c) (alloc_log c) (marked c) (cq c))
   | RDrain =>                                                (* popleft until IndexError; every packet taken is marked *)
       match out_packet c with
-      | [] => Some (set_loop c RSock)
+      | [] => Some (set_loop c RFlag)
       | p :: q =>
           Some (mkConf (last_mid c) (mid_lock c) q (pipe c) (sock c) (nconn c) (wire c) RDrain
-                       (pubs c) (timeouts c) (alloc_log c) (marked c ++ [p]))
+                       (pubs c) (timeouts c) (alloc_log c) (marked c ++ [p]) (cq c))
       end
+  | RFlag =>                                                 (* self._connect_queued = False *)
+      Some (mkConf (last_mid c) (mid_lock c) (out_packet c) (pipe c) (sock c) (nconn c) (wire c) RSock
+                   (pubs c) (timeouts c) (alloc_log c) (marked c) false)
   | RSock =>
       Some (mkConf (last_mid c) (mid_lock c) (out_packet c) (pipe c) (Some (nconn c)) (nconn c + 1) (wire c)
-                   RConnect (pubs c) (timeouts c) (alloc_log c) (marked c))
+                   RConnect (pubs c) (timeouts c) (alloc_log c) (marked c) (cq c))
   | RConnect =>                                              (* _packet_queue(CONNECT): appendleft *)
       match sock c with
       | Some k =>
           Some (mkConf (last_mid c) (mid_lock c) (Connect k :: out_packet c) (pipe c) (sock c) (nconn c)
-                       (wire c) RWake (pubs c) (timeouts c) (alloc_log c) (marked c))
+                       (wire c) RFlagT (pubs c) (timeouts c) (alloc_log c) (marked c) (cq c))
       | None => None
       end
+  | RFlagT =>                                                (* self._connect_queued = True *)
+      Some (mkConf (last_mid c) (mid_lock c) (out_packet c) (pipe c) (sock c) (nconn c) (wire c) RWake
+                   (pubs c) (timeouts c) (alloc_log c) (marked c) true)
   | RWake =>
       Some (mkConf (last_mid c) (mid_lock c) (out_packet c) (S (pipe c)) (sock c) (nconn c) (wire c) LWant
-                   (pubs c) (timeouts c) (alloc_log c) (marked c))
+                   (pubs c) (timeouts c) (alloc_log c) (marked c) (cq c))
   end.
 
 (* select() times out: only while the loop thread is parked with nothing ready *)
@@ -211,7 +225,7 @@ Definition timeout_step (c : conf) : option conf :=
   | LSelect false =>
       if (0 <? pipe c)%nat then None
       else Some (mkConf (last_mid c) (mid_lock c) (out_packet c) (pipe c) (sock c) (nconn c) (wire c) LWant
-                        (pubs c) (S (timeouts c)) (alloc_log c) (marked c))
+                        (pubs c) (S (timeouts c)) (alloc_log c) (marked c) (cq c))
   | _ => None
   end.
 
@@ -247,7 +261,7 @@ Definition new_pub (n : nat) : pub :=
 
 (* connection 1 established, CONNECT already written, [nmsgs] = messages per publisher *)
 Definition init (m0 : Z) (l0 : lpc) (pipe0 : nat) (nmsgs : list nat) : conf :=
-  mkConf m0 None [] pipe0 (Some 1) 2 [(1, Connect 1)] l0 (map new_pub nmsgs) O [] [].
+  mkConf m0 None [] pipe0 (Some 1) 2 [(1, Connect 1)] l0 (map new_pub nmsgs) O [] [] true.
 
 Definition init_steady (m0 : Z) (nmsgs : list nat) : conf := init m0 LWant O nmsgs.
 Definition init_reconnect (m0 : Z) (nmsgs : list nat) : conf := init m0 RClose O nmsgs.
@@ -308,8 +322,8 @@ Definition enc_pkt (p : pkt) : list Z :=
 
 Definition lpc_code (l : lpc) : Z :=
   match l with
-  | LWant => 0 | LSelect false => 1 | LSelect true => 2 | LDrain => 3 | LPop => 4 | LSend _ => 5
-  | RClose => 10 | RDrain => 11 | RSock => 14 | RConnect => 15 | RWake => 16
+  | LWant => 0 | LSelect false => 1 | LSelect true => 2 | LDrain => 3 | LPop => 4 | LSend _ => 5 | LGate => 6
+  | RClose => 10 | RDrain => 11 | RFlag => 13 | RSock => 14 | RConnect => 15 | RFlagT => 17 | RWake => 16
   end.
 
 Definition lpc_of_code (z : Z) : lpc :=
